@@ -1146,7 +1146,41 @@ func (f *Frugal) validateTypedefs() error {
 				typedef.Name, typedef.Type.Name)
 		}
 	}
+	// Reject aliases that (directly, through other aliases or through
+	// container element types) refer back to themselves: they describe no
+	// type and would make UnderlyingType and the generators recurse forever.
+	for _, typedef := range f.Typedefs {
+		if f.typedefCycle(typedef.Type, map[string]bool{typedef.Name: true}) {
+			return fmt.Errorf("Invalid alias %s, typedef refers to itself", typedef.Name)
+		}
+	}
 	return nil
+}
+
+// typedefCycle reports whether following the typedefs of this file from t
+// reaches an alias that is already being expanded (onPath).
+func (f *Frugal) typedefCycle(t *Type, onPath map[string]bool) bool {
+	if t == nil {
+		return false
+	}
+	if f.typedefCycle(t.KeyType, onPath) || f.typedefCycle(t.ValueType, onPath) {
+		return true
+	}
+	if t.IncludeName() != "" {
+		// Includes cannot be circular, so an alias of another file cannot
+		// lead back here.
+		return false
+	}
+	typedef, ok := f.typedefIndex[t.ParamName()]
+	if !ok {
+		return false
+	}
+	if onPath[typedef.Name] {
+		return true
+	}
+	onPath[typedef.Name] = true
+	defer delete(onPath, typedef.Name)
+	return f.typedefCycle(typedef.Type, onPath)
 }
 
 func (f *Frugal) validateStructs() error {
